@@ -685,3 +685,89 @@ func C12FakeServer(mode string) (addr string, stop func(), err error) {
 		ln.Close()
 	}, nil
 }
+
+// C12Proxy is a TCP forwarder in front of `target` that can be switched off and on again: while down it keeps its
+// port (so no other process can be handed it) but drops every connection it has and hangs up on every new one --
+// an unreachable server, as the client sees it.
+type C12Proxy struct {
+	ln     net.Listener
+	target string
+	mu     sync.Mutex
+	down   bool
+	conns  map[net.Conn]bool
+}
+
+// C12NewProxy starts a proxy for target on a loopback port.
+func C12NewProxy(target string) (*C12Proxy, error) {
+	ln, err := net.Listen("tcp", "127.0.0.1:0")
+	if err != nil {
+		return nil, err
+	}
+	p := &C12Proxy{ln: ln, target: target, conns: map[net.Conn]bool{}}
+	go func() {
+		for {
+			c, err := ln.Accept()
+			if err != nil {
+				return
+			}
+			p.mu.Lock()
+			if p.down {
+				p.mu.Unlock()
+				c.Close()
+				continue
+			}
+			up, err := net.Dial("tcp", p.target)
+			if err != nil {
+				p.mu.Unlock()
+				c.Close()
+				continue
+			}
+			p.conns[c], p.conns[up] = true, true
+			p.mu.Unlock()
+			pipe := func(dst, src net.Conn) {
+				buf := make([]byte, 32<<10)
+				for {
+					n, err := src.Read(buf)
+					if n > 0 {
+						if _, werr := dst.Write(buf[:n]); werr != nil {
+							break
+						}
+					}
+					if err != nil {
+						break
+					}
+				}
+				dst.Close()
+				src.Close()
+				p.mu.Lock()
+				delete(p.conns, dst)
+				delete(p.conns, src)
+				p.mu.Unlock()
+			}
+			go pipe(up, c)
+			go pipe(c, up)
+		}
+	}()
+	return p, nil
+}
+
+// Addr is the address clients should be given.
+func (p *C12Proxy) Addr() string { return p.ln.Addr().String() }
+
+// SetDown switches the proxy off (dropping every connection) or on.
+func (p *C12Proxy) SetDown(down bool) {
+	p.mu.Lock()
+	p.down = down
+	if down {
+		for c := range p.conns {
+			c.Close()
+		}
+	}
+	p.mu.Unlock()
+}
+
+// Close stops the proxy for good.
+func (p *C12Proxy) Close() {
+	p.SetDown(true)
+	p.ln.Close()
+}
